@@ -21,6 +21,13 @@ import (
 // Prop is one property's tie to the implementation.
 type Prop struct {
 	ID string
+	// Part names one of several independent harness parts of the same property
+	// (e.g. C03 "seq" and "feat"); Ops lists the first tokens of the inputs this part
+	// executes. A property with a single part may leave both empty.
+	Part string
+	Ops  []string
+	// Weight is this part's share of the case/time budget (0 = 1).
+	Weight int
 	// Gen emits inputs through g.Case. It must stop when g.Done() is true.
 	Gen func(g *Gen)
 	// Exec runs the implementation on one input. Panics are caught by the runner
@@ -35,8 +42,85 @@ type Prop struct {
 }
 
 var registry = map[string]*Prop{}
+var parts = map[string][]*Prop{}
 
-func Register(p *Prop) { registry[p.ID] = p }
+// Register adds a property, or one more part of a property that is already registered.
+func Register(p *Prop) {
+	parts[p.ID] = append(parts[p.ID], p)
+	ps := parts[p.ID]
+	if len(ps) == 1 {
+		registry[p.ID] = p
+		return
+	}
+	sort.Slice(ps, func(i, j int) bool { return ps[i].Part < ps[j].Part })
+	for _, q := range ps {
+		if len(q.Ops) == 0 {
+			panic("hx: property " + p.ID + " has several parts; each needs Ops")
+		}
+	}
+	find := func(input string) *Prop {
+		op := input
+		if i := strings.IndexByte(input, ' '); i >= 0 {
+			op = input[:i]
+		}
+		for _, q := range parts[p.ID] {
+			for _, o := range q.Ops {
+				if o == op {
+					return q
+				}
+			}
+		}
+		return nil
+	}
+	registry[p.ID] = &Prop{
+		ID:        p.ID,
+		NoRecover: true, // each part is wrapped by SafeExec below
+		Exec: func(input string) string {
+			q := find(input)
+			if q == nil {
+				return "bad-op"
+			}
+			return SafeExec(q, input)
+		},
+		Shrink: func(input string) []string {
+			if q := find(input); q != nil && q.Shrink != nil {
+				return q.Shrink(input)
+			}
+			return nil
+		},
+		Gen: func(g *Gen) {
+			total := 0
+			for _, q := range parts[p.ID] {
+				if q.Weight == 0 {
+					q.Weight = 1
+				}
+				total += q.Weight
+			}
+			start := time.Now()
+			var span time.Duration
+			if !g.deadline.IsZero() {
+				span = g.deadline.Sub(start)
+			}
+			used := 0
+			for _, q := range parts[p.ID] {
+				sub := *g
+				sub.n = 0
+				if g.max > 0 {
+					sub.max = g.max * q.Weight / total
+					if sub.max == 0 {
+						sub.max = 1
+					}
+				}
+				if span > 0 {
+					used += q.Weight
+					sub.deadline = start.Add(span * time.Duration(used) / time.Duration(total))
+				}
+				q.Gen(&sub)
+				g.n += sub.n
+			}
+		},
+	}
+}
 
 func Lookup(id string) *Prop { return registry[id] }
 
